@@ -845,7 +845,9 @@ def _check(ctx, rng, R, C, CU, tmp):
     names0 = [k for k, u in R.units.NAME_TO_UNIT.items() if "cash" not in u.quantities]
     syms0 = [k for k, u in R.units.SYMBOL_TO_UNIT.items() if "cash" not in u.quantities]
     pool_names = ["euro", "usdollar", "dollar", "yen", "pound", "metre", "second", "seconds", "foo", "foos", "bar", "noplura", "", "gram", "x", "eur", "usd", "$", "€", "peso", "pesos",
-                  "bolívar", "pa'anga", "ni-vanuatu", "mètre", "1st", "_x", "ｆｏｏ", "ﬁat", "日本", "a b", "é", "Å1"]
+                  "bolívar", "pa'anga", "ni-vanuatu", "mètre", "1st", "_x", "ｆｏｏ", "ﬁat", "日本", "a b", "é", "Å1",
+                  # names that READ as a prefixed unit (also of a unit with an offset, where a prefix is refused): rows like any other
+                  "kilogram", "megabytes", "ms", "millidegC", "kdegF", "MdegC", "nanodegF", "kilometre", "microsecond", "degC", "degF", "kdegC", "millidegF"]
     pool_syms = ["eur", "usd", "jpy", "gbp", "m", "s", "g", "K", "b", "cup", "min", "xx", "yy", "foo", "foos", "", "$", "dollar", "euro", "x", "peso"]
     regjobs = []
     for i in range(ctx.n(36, 400)):
